@@ -342,5 +342,5 @@ def main(tier, seed, workers=None):
     run = Run(PROP, "exploration", tier, seed, RULE)
     run.assumptions = ["Python's json module is the notion of 'plain JSON' (NaN/Infinity tokens accepted)",
                        "indented output is checked as documents only: the adapter's reader is line based"]
-    explore(run, cases(tier, seed), run_case, workers, chunk=16)
+    explore(run, cases(tier, seed), run_case, workers, chunk=16, reversed_pass=(tier == "thorough"))
     return run.finish(lambda case: [v[0] for v in run_case(case)["viol"]])
